@@ -25,6 +25,8 @@ func c11Bases(seed int64, thorough bool) []*e2eCase {
 		res = append(res, c)
 	}
 	mk(true, true, 4, true, []int64{20000, 300}, 1, 4096)
+	// the first file overwrites an existing, shorter file with the same beginning: the resume hash exchange runs
+	res[len(res)-1].Pre = []e2eNode{{Rel: e2eName(0, 0), Size: 5000, Like: 1}}
 	mk(false, false, 2, false, []int64{15000}, 1, 4096)
 	// a directory sent as one archive stream (protocol 4, no overwrite): sub files that shrink
 	mk(true, true, 4, false, []int64{60000, 300}, 1, 4096)
@@ -34,6 +36,7 @@ func c11Bases(seed int64, thorough bool) []*e2eCase {
 	}
 	if thorough {
 		mk(false, true, 4, true, []int64{9000, 9000}, 1, 4096)
+		res[len(res)-1].Pre = []e2eNode{{Rel: e2eName(0, 1), Size: 9000, Like: 2, DivergeAt: 4000}}
 		mk(true, false, 3, false, []int64{15000}, 0, 4096)
 		mk(true, false, 1, false, []int64{3000}, 1, 4096)
 		mk(false, false, 4, false, []int64{100, 30000}, 2, 1024)
